@@ -17,7 +17,7 @@ THEOREMS = ["Drand.Beacon.Stream." + t for t in [
     "tie_syncchain_calls", "tie_syncchain_guards", "tie_dispatch_lossless",
     "c11_scan_exact", "c11_scan_out_stored", "drop_seekIdx", "c11_live_fifo", "c11_no_repeat", "c11_sent_stored", "c11_exact_partial",
     "c11_gap_counterexample", "c11_gap_counterexample_after_scan", "c11_memdb_shift_counterexample", "c11_memdb_evicted_counterexample",
-    "c11_detach_counterexample", "c11_exact_tracked", "frm_step", "c11_net_projection",
+    "c11_detach_counterexample", "c11_exact_tracked", "frm_step", "c11_net_projection", "c11_concurrent_puts_one_event",
 ]]
 TRUSTED = ["Lean 4 kernel; axioms per theorem under coverage.axioms",
            "modelled, not verified: goroutine scheduling (every interleaving of the listed steps is a schedule), Go channels (FIFO), bbolt read transactions (a snapshot), memdb cursor (position into the live slice; C18 correspondence)",
@@ -467,11 +467,44 @@ def shrink(backend, ops, pred, budget=60):
     return cur
 
 
+def race_section(ctx, res, tier):
+    """Every live stream is fed by one callback of the callbackStore; the callback fires once per Put that answered nil.
+    k writers (aggregator, sync manager) released from a barrier Put a beacon of the same next round through the real
+    callbackStore(appendStore(schemeStore(base))) (engine `chain`, op `brace`): the callback must fire exactly once per round,
+    or a stream in its live phase delivers that round twice."""
+    from . import C02
+    reps = 2 if tier == "quick" else 20
+    for backend in ("trimmed", "bolt", "mem"):
+        for scheme in (C02.SCHEMES[1], C02.SCHEMES[0]):
+            seq = [f"init {scheme} aa"] + [f"brace {k} 25 {m}" for _ in range(reps) for k, m in ((2, "same"), (3, "diff"), (4, "same"))] + ["scan"]
+            impl, model = C02.run_chain(backend, seq, ctx["model_ok"])
+            res.cov["race_ops"] = res.cov.get("race_ops", 0) + len(seq)
+            for op, out in zip(seq, impl):
+                if not op.startswith("brace"):
+                    continue
+                d = dict(t.split("=") for t in out.split()[1:]) if out.startswith("brace ") else {}
+                cb = d.get("cb", "?").split(",")
+                if any(x != "1" for x in cb):
+                    res.add_violation({"engine": "chain", "backend": backend, "kind": "impl-violates", "ops": [seq[0], op], "observed": [impl[0], out],
+                                       "oracle": f"{op.split()[1]} concurrent Puts of the same next round: the callback that feeds the live streams fired {','.join(cb)} times "
+                                                 f"per round (Put answered nil {d.get('ok')} times); a live stream delivers such a round more than once"})
+                    return True
+            if model is not None and model != impl:
+                j = core.first_diff(impl, model)
+                res.add_violation({"engine": "chain", "backend": backend, "kind": "model-impl-diverge", "ops": seq[:j + 1], "observed": impl[j:j + 1],
+                                   "expected": model[j:j + 1], "note": "concurrent Puts of one round: the implementation's answers are not those of k atomic Puts in some order"},
+                                  found=False)
+                return False
+    return False
+
+
 def explore(ctx, res):
     rng = ctx["rng"]
     tier = "thorough" if ctx["deep"] else ctx["tier"]
     if ctx.get("replay"):
         return replay(ctx, res)
+    if race_section(ctx, res, tier):
+        return
     batches = []
     # corpus first
     corpus = []
